@@ -24,7 +24,8 @@ PATTERN = {
 
 
 class WalkInterp(Interp):
-    """ts = (stop, stop_origin, skipcur, sibl, seq, holders)"""
+    """ts = (stop, stop_origin, skipcur, sibl, seq, holders, mark)
+    mark = (site id, answer) of the most recent child walk that answered CONTINUE or SKIP_CURRENT (else None)"""
 
     def __init__(self, prog, fn, mode):
         super().__init__(prog, fn)
@@ -32,11 +33,13 @@ class WalkInterp(Interp):
         self.obs = []          # (kind 'handler'|'walk', name, node, ts)
         keep = {p["name"] for p in fn.params} | {l["name"] for l in fn.locals if l["t"].strip() == "int"}
         self.tracked = {p for p in self.tracked if p in keep}
-        self.cap = 4000
-        self.max_steps = 200000
+        self.cap = 8000
+        self.max_steps = 400000
+        self.after_child = {}      # (child call id, answer) -> {(callback/child name, node id, line)} observed afterwards
+        self.child_sites = {}
 
     def initial_ts(self):
-        return (None, None, False, frozenset(), (), frozenset())
+        return (None, None, False, frozenset(), (), frozenset(), None)
 
     def _classes(self, kind):
         if self.mode == "all-continue":
@@ -52,7 +55,7 @@ class WalkInterp(Interp):
     def call(self, st, n, argvals):
         c = n.get("callee")
         tgt = indirect_target(n)
-        stop, origin, skipcur, sibl, seq, holders = st.ts
+        stop, origin, skipcur, sibl, seq, holders, mark = st.ts
         if tgt and tgt.startswith("handle_"):
             name, kind = tgt, "handler"
         elif c in WALKERS:
@@ -61,11 +64,19 @@ class WalkInterp(Interp):
             return [(st, v) for v in self._classes(API[c])]
         else:
             return [(st, None)]
-        self.obs.append((kind, name, n, st.ts))
+        self.obs.append((kind, name, n, st.ts[:6]))
+        if mark is not None:
+            self.after_child.setdefault(mark, set()).add((name, n["id"], n.get("l")))
         seq2 = seq if (seq and seq[-1] == name) else seq + (name,)
         outs = []
         for v in self._classes("directive"):
             stop2, origin2, skipcur2, sibl2, holders2 = stop, origin, skipcur, sibl, holders
+            mark2 = mark
+            if kind == "walk":
+                mark2 = (n["id"], v.value()) if (v.is_const() and v.value() in (CONT, SKIPC)) else None
+                if mark2 is not None:
+                    self.after_child.setdefault(mark2, set())
+                    self.child_sites[n["id"]] = (name, n.get("l"))
             if v.is_const() and v.value() == END:
                 stop2, origin2, holders2 = stop2 or "END", origin2 or n["id"], frozenset()
             elif v is POS or (v.lo is not None and v.lo >= 1):
@@ -75,7 +86,7 @@ class WalkInterp(Interp):
                 skipcur2 = True
             elif v.is_const() and v.value() == SKIPS and kind == "walk":
                 sibl2 = sibl | {name}
-            outs.append((st.with_ts((stop2, origin2, skipcur2, sibl2, seq2, holders2)), v))
+            outs.append((st.with_ts((stop2, origin2, skipcur2, sibl2, seq2, holders2, mark2)), v))
         return outs
 
     def on_edge(self, st, blk, cond, truth):
@@ -87,7 +98,7 @@ class WalkInterp(Interp):
         return st
 
     def assign(self, st, node, lhs, p, av, rhs):
-        stop, origin, skipcur, sibl, seq, holders = st.ts
+        stop, origin, skipcur, sibl, seq, holders, mark = st.ts
         if stop != "POS" or p is None:
             return st
         r = strip(rhs) if rhs is not None else None
@@ -99,9 +110,9 @@ class WalkInterp(Interp):
             elif path(r) in holders:
                 from_v = True
         if from_v and p not in holders:
-            return st.with_ts((stop, origin, skipcur, sibl, seq, holders | {p}))
+            return st.with_ts((stop, origin, skipcur, sibl, seq, holders | {p}, mark))
         if not from_v and p in holders:
-            return st.with_ts((stop, origin, skipcur, sibl, seq, holders - {p}))
+            return st.with_ts((stop, origin, skipcur, sibl, seq, holders - {p}, mark))
         return st
 
 
@@ -149,7 +160,7 @@ def run(prog, chk):
         # return values
         bad_ret = {}
         for st, av, node in it.exits:
-            stop, origin, skipcur, sibl, seq, holders = st.ts
+            stop, origin, skipcur, sibl, seq, holders = st.ts[:6]
             line = node.get("l") if node else fn.endline
             if stop == "END":
                 want = 0 if w == "cif_walk" else END
@@ -175,6 +186,28 @@ def run(prog, chk):
             r2.violation(fn.file, w, line, "return:%s:%s" % (w, what), msg, path=["L%s" % x for x in st.trail_lines()])
         if not bad_ret:
             r2.ok("%s:returns" % w, "%d exits: END/positive results propagated%s" % (len(it.exits), ", directives mapped to CIF_OK" if w == "cif_walk" else ""))
+    # a child's SKIP_CURRENT is consumed by the child: the parent goes on exactly as after CONTINUE
+    for w in WALKERS:
+        it = runs[w]
+        if it.overflow:
+            continue
+        fn = prog.fn(w)
+        for cid, (cname, cline) in sorted(it.child_sites.items()):
+            a_cont = {(nm, i) for (nm, i, l) in it.after_child.get((cid, CONT), set())}
+            a_skip = {(nm, i) for (nm, i, l) in it.after_child.get((cid, SKIPC), set())}
+            key = "%s:child-skip-current:%s@L%s" % (w, cname, cline)
+            if a_cont == a_skip:
+                r2.ok(key, "the same %d callback/child site(s) follow a child's CONTINUE and its SKIP_CURRENT" % len(a_cont))
+            else:
+                lines = {i: l for (nm, i, l) in it.after_child.get((cid, CONT), set()) | it.after_child.get((cid, SKIPC), set())}
+                lost = sorted("%s (L%s)" % (nm, lines[i]) for (nm, i) in a_cont - a_skip)
+                extra = sorted("%s (L%s)" % (nm, lines[i]) for (nm, i) in a_skip - a_cont)
+                r2.violation(fn.file, w, cline, "child-skip-current-differs:%s:%s" % (w, cname),
+                             "after %s (L%s) answers SKIP_CURRENT - which only concerns that child's own descendants - %s differs "
+                             "from what follows its CONTINUE: %s%s" % (
+                                 cname, cline, w,
+                                 ("no longer reached: " + ", ".join(lost)) if lost else "",
+                                 ("; additionally reached: " + ", ".join(extra)) if extra else ""))
     # loops stay reachable after SKIP_SIBLINGS from a save frame
     wc = runs["walk_container"]
     reach_loops = any(kind == "walk" and name == "walk_loops" and "walk_container" in ts[3] for (kind, name, n, ts) in wc.obs)
